@@ -17,9 +17,9 @@
 #include "io.h"
 #include "raid/raid.h"
 #include "vf.h"
-#define UFBS 8
-#define UFK 12
-#include "stubs/uf_hash.h"
+/* uninterpreted injective hash with concrete slots (stubs/uf_slots.h): [0,ND) recorded hashes of the pre-state, then per disk the
+ * calls of the real code (first pass with the current / the previous hash kind, and the re-hash of a recovered block), then the
+ * reference digests of what each parity level encodes and of the data on disk */
 
 #ifndef ND
 #define ND 2
@@ -28,6 +28,8 @@
 #define LEVEL 1
 #endif
 #define BS 8
+#define UFS_N (ND + 3 * ND + (LEVEL > 0 ? LEVEL : 1) * ND + ND)
+#include "stubs/uf_slots.h"
 
 int __CPROVER_file_local_sync_c_state_sync_process(struct snapraid_state* state, struct snapraid_parity_handle* parity_handle, block_off_t blockstart, block_off_t blockmax);
 
@@ -49,6 +51,8 @@ static int attr_changed[ND], open_err[ND], read_err[ND];
 static int wfail[LEVEL > 0 ? LEVEL : 1];                    /* answer of parity_write per level: 0 ok, 1 EIO, 2 other error */
 static int parity_written[LEVEL > 0 ? LEVEL : 1], parity_synced_after_write = 1, state_written, data_mutated, dealloc[ND];
 static int stop_now;
+static int wfail_hit[LEVEL > 0 ? LEVEL : 1];      /* a parity write of this level was attempted and failed */
+static int after_rec;       /* set by the raid_rec stub: later memhash calls are the re-hash of recovered blocks */
 
 static struct snapraid_block* blk(unsigned j) { return (struct snapraid_block*)BV[j]; }
 static int has_block(unsigned j) { return kind[j] >= K_BLK; }
@@ -56,7 +60,8 @@ static unsigned disk_index(struct snapraid_disk* d) { unsigned j; for (j = 0; j 
 
 /* ---------------- elem.c / state.c stubs over the mini array ---------------- */
 struct snapraid_block* fs_par2block_find(struct snapraid_disk* disk, block_off_t pos) { unsigned j = disk_index(disk); (void)pos; return has_block(j) ? blk(j) : BLOCK_NULL; }
-struct snapraid_file* fs_par2file_get(struct snapraid_disk* disk, block_off_t pos, block_off_t* file_pos) { unsigned j = disk_index(disk); (void)pos; VF_ASSERT(kind[j] == K_BLK || kind[j] == K_CHG || kind[j] == K_REP, "file asked only for blocks that have one"); *file_pos = 0; return &FL[j]; }
+/* fs_par2file_get is a static inline of elem.h that calls fs_par2file_find: the stub must be the latter (a body-less find returns an unconstrained pointer) */
+struct snapraid_file* fs_par2file_find(struct snapraid_disk* disk, block_off_t pos, block_off_t* file_pos) { unsigned j = disk_index(disk); (void)pos; VF_ASSERT(kind[j] == K_BLK || kind[j] == K_CHG || kind[j] == K_REP, "file asked only for blocks that have one"); *file_pos = 0; return &FL[j]; }
 void fs_deallocate(struct snapraid_disk* disk, block_off_t pos) { unsigned j = disk_index(disk); (void)pos; VF_ASSERT(kind[j] == K_DEL, "only deleted blocks are deallocated"); dealloc[j] = 1; kind[j] = K_EMPTY; }
 struct snapraid_handle* handle_mapping(struct snapraid_state* state, unsigned* handlemax)
 {
@@ -78,6 +83,7 @@ void* memcpy(void* dst, const void* src, size_t n)
 	else VF_ASSERT(n == 0, "harness: memcpy sizes 0/4/8/16 on this data plane");
 	return dst;
 }
+unsigned memdiff(const unsigned char* a, const unsigned char* b, size_t n) { (void)a; (void)b; (void)n; return 1; }
 void* memset(void* dst, int c, size_t n)
 {
 	uint64_t w = (uint64_t)(unsigned char)c * 0x0101010101010101ULL;
@@ -171,7 +177,7 @@ int parity_write(struct snapraid_parity_handle* h, block_off_t pos, unsigned cha
 {
 	unsigned l = h->level, j; uint64_t t; (void)pos;
 	VF_ASSERT(size == BS && l < LEVEL, "parity_write");
-	if (wfail[l]) { errno = wfail[l] == 1 ? EIO : ENOSPC; return -1; }
+	if (wfail[l]) { wfail_hit[l] = 1; errno = wfail[l] == 1 ? EIO : ENOSPC; return -1; }
 	memcpy(&t, buf, 8);
 	VF_ASSERT(gen_valid && t == gen_id[l], "what is written to parity level l is what raid_gen produced for level l in this iteration");
 	for (j = 0; j < ND; ++j) par_vec[l][j] = gen_vec[l][j];
@@ -198,6 +204,7 @@ void raid_rec(int nr, int* ir, int nd, int np, size_t size, void** v)
 	/* contract: indices sorted, distinct, in range, nr <= np; the listed data blocks are overwritten: with the vector the parities
 	 * read encode when every parity level read encodes the same vector and agrees with the survivors, with anything otherwise */
 	int i, j, l, consistent = 1;
+	after_rec = 1;
 	VF_ASSERT(nd == ND && np == LEVEL && size == BS && nr >= 0 && nr <= np, "C03 precondition: nr <= np");
 	for (i = 0; i < nr; ++i) { VF_ASSERT(ir[i] >= 0 && ir[i] < nd + np, "C03 precondition: index in range"); if (i) VF_ASSERT(ir[i - 1] < ir[i], "C03 precondition: indices sorted (C13: arrival order varies)"); }
 	for (l = 0; l < np; ++l) { uint64_t t; memcpy(&t, v[nd + l], 8); if (!(rd_valid[l] && t == rd_id[l])) consistent = 0; }
@@ -232,11 +239,19 @@ void io_init(struct snapraid_io* io, struct snapraid_state* state, unsigned io_c
 }
 void io_done(struct snapraid_io* io) { (void)io; }
 static void st_start(struct snapraid_io* io, block_off_t a, block_off_t b, bit_vect_t* en) { (void)io; VF_ASSERT(a == 0 && b == 1, "one stripe"); enabled = en; served = 0; }
-static void st_stop(struct snapraid_io* io) { (void)io; }
+static int pending_write[LEVEL > 0 ? LEVEL : 1];
+static void st_stop(struct snapraid_io* io)
+{
+	unsigned l; (void)io;
+	for (l = 0; l < LEVEL; ++l) if (pending_write[l]) { pending_write[l] = 0; WW[l].func(&WW[l], &TKW[l]); }      /* queued writes drain before the workers exit (io.c:392-397) */
+}
+static int rn_calls;
 static block_off_t st_read_next(struct snapraid_io* io, void*** buffer)
 {
-	(void)io; *buffer = bufvec; cur_buffer = bufvec; rd_next = 0; wr_next = 0; gen_valid = 0;
-	if (served || !bit_vect_test(enabled, 0)) return 1;    /* >= blockmax: nothing (more) to do */
+	(void)io; *buffer = bufvec; cur_buffer = bufvec;
+	if (rn_calls++ > 0) return 1;                       /* concrete call counter: with a symbolic 'served' test the stripe loop is unrolled to the bound */
+	rd_next = 0; wr_next = 0; gen_valid = 0;
+	if (!bit_vect_test(enabled, 0)) return 1;    /* >= blockmax: nothing (more) to do */
 	served = 1;
 	return 0;
 }
@@ -261,8 +276,13 @@ static void st_parity_write(struct snapraid_io* io, unsigned* levcur, unsigned* 
 	t = &TKW[l];
 	t->state = preset_skip ? TASK_STATE_EMPTY : TASK_STATE_READY; t->buffer = preset_skip ? (unsigned char*)0 : &dbuf[ND + l][0]; t->position = 0;
 	if (t->state != TASK_STATE_EMPTY) {
+#ifdef DEFERRED_WRITES
+		pending_write[l] = 1;       /* the contract of the threaded layer (io.c io_write_next_thread / io_writer_step): the write is only queued; a writer thread
+		                             * performs it later - at the latest before io_stop() returns - and its error is counted when a LATER stripe is scheduled */
+#else
 		WW[l].func(&WW[l], t);      /* the real sync_parity_writer */
 		if (t->state < 0) ++werr_count[t->state - IO_WRITER_ERROR_BASE];   /* ideal contract: every failed write is counted for its own stripe */
+#endif
 	}
 	*levcur = l; wm[0] = l; *wmac = 1;
 }
@@ -270,9 +290,24 @@ static void st_write_next(struct snapraid_io* io, block_off_t cur, int skip, int
 static void st_refresh(struct snapraid_io* io) { (void)io; }
 
 /* ---------------- pre-state ---------------- */
-static void set_hash_tok(unsigned j, uint64_t tok) { uint64_t d[2]; uf_digest(S.hash, &tok, BS, d); memcpy(blk(j)->hash, d, 16); }
+static void set_hash_tok(unsigned j, uint64_t tok) { uint64_t d[2]; ufs_digest(j, S.hash, tok, d); memcpy(blk(j)->hash, d, 16); }
 static uint64_t hash_lo(unsigned j) { uint64_t d; memcpy(&d, blk(j)->hash, 8); return d; }
-static uint64_t uf_lo(uint64_t tok) { uint64_t d[2]; uf_digest(S.hash, &tok, BS, d); return d[0]; }
+static uint64_t d_par[LEVEL > 0 ? LEVEL : 1][ND], d_disk[ND];      /* reference digests, computed once after the run */
+static void post_digests(void)
+{
+	unsigned j, l; uint64_t d[2];
+	for (l = 0; l < LEVEL; ++l) for (j = 0; j < ND; ++j) { ufs_digest(4 * ND + l * ND + j, S.hash, par_vec[l][j], d); d_par[l][j] = d[0]; }
+	for (j = 0; j < ND; ++j) { ufs_digest(4 * ND + (LEVEL > 0 ? LEVEL : 1) * ND + j, S.hash, tok_disk[j], d); d_disk[j] = d[0]; }
+}
+void memhash(unsigned kind, const unsigned char* seed, void* digest, const void* src, size_t size)
+{
+	unsigned j, slot = UFS_N; uint64_t w, d[2]; (void)seed;
+	VF_ASSERT(size == BS, "harness: whole blocks are hashed");
+	for (j = 0; j < ND; ++j) if (src == (const void*)dbuf[j]) slot = ND + 3 * j + (after_rec ? 2 : (kind == S.prevhash ? 1 : 0));
+	memcpy(&w, src, 8);
+	ufs_digest(slot, kind, w, d);
+	memcpy(digest, d, 16);
+}
 static uint64_t oldv[ND], newv[ND];
 
 static void pre_state(void)
@@ -309,17 +344,21 @@ static void pre_state(void)
 		case K_CHG: {
 			unsigned hk = vf_in_u8() % 3;
 			block_state_set(blk(j), BLOCK_STATE_CHG); oldv[j] = tok_old[j]; newv[j] = tok_new[j];
-			if (hk == 0) set_hash_tok(j, tok_old[j]); else if (hk == 1) { oldv[j] = 0; hash_zero_set(blk(j)->hash); } else hash_invalid_set(blk(j)->hash);
+			/* a CHG block with a usable past hash exists only when created by the scan of this very run over a block that was synced
+			 * (or empty) in the loaded state: past hashes loaded from the content file are cleared (state.c "clear_past_hash",
+			 * sync.c:812-817, scan.c:286-300).  Every parity level then encodes that previous content at this position, whether or not an
+			 * earlier interrupted sync rewrote the stripe.  Only a CHG with an invalid hash may already be encoded with newer data. */
+			if (hk == 0) { set_hash_tok(j, tok_old[j]); newv[j] = oldv[j]; } else if (hk == 1) { oldv[j] = 0; newv[j] = 0; hash_zero_set(blk(j)->hash); } else hash_invalid_set(blk(j)->hash);
 			break; }
 		default: {
 			unsigned hk = vf_in_u8() & 1;
 			block_state_set(blk(j), BLOCK_STATE_DELETED); oldv[j] = tok_old[j]; newv[j] = 0;
-			if (hk == 0) set_hash_tok(j, tok_old[j]); else hash_invalid_set(blk(j)->hash);
+			if (hk == 0) { set_hash_tok(j, tok_old[j]); newv[j] = oldv[j]; } else hash_invalid_set(blk(j)->hash);    /* same: a valid past hash means deleted in this run, parity still has the data */
 			break; }
 		}
 	}
 #if ND == 2 && defined(REORDER)
-	if (vf_in_u8() & 1) { order[0] = 1; order[1] = 0; }      /* C13: readers may finish in any order */
+	order[0] = 1; order[1] = 0;      /* C13: readers may finish in any order - enumerated by the driver (a symbolic order makes every disk index symbolic) */
 #endif
 	for (l = 0; l < LEVEL; ++l) { int isnew = vf_in_u8() & 1; for (j = 0; j < ND; ++j) par_vec[l][j] = isnew ? newv[j] : oldv[j]; parity_written[l] = 0; }
 	io_start = st_start; io_stop = st_stop; io_read_next = st_read_next; io_data_read = st_data_read; io_write_preset = st_write_preset;
@@ -335,7 +374,7 @@ static void check_inv(const char* when)
 	for (j = 0; j < ND; ++j) if (has_block(j)) { any = 1; if (block_state_get(blk(j)) != BLOCK_STATE_BLK) all_blk = 0; }
 	if (any && all_blk) {
 		for (l = 0; l < LEVEL; ++l) for (j = 0; j < ND; ++j) {
-			if (has_block(j)) VF_ASSERT(uf_lo(par_vec[l][j]) == hash_lo(j), "C06: stripe recorded as synced => every parity level encodes the data the recorded hashes describe");
+			if (has_block(j)) VF_ASSERT(d_par[l][j] == hash_lo(j), "C06: stripe recorded as synced => every parity level encodes the data the recorded hashes describe");
 			else VF_ASSERT(par_vec[l][j] == 0, "C06: stripe recorded as synced => parity encodes zero for unused positions");
 		}
 	}
@@ -343,24 +382,31 @@ static void check_inv(const char* when)
 
 void c06_sync_step(void)
 {
-	int ret; unsigned j, l; snapraid_info info0; int was_blk[ND]; int had_err = 0, had_ioerr = 0, any_wfail = 0;
+	int ret; unsigned j, l; snapraid_info info0; int was_blk[ND]; int had_err = 0, eio_read = 0, fatal = 0, wfailed = 0;
 	pre_state();
-#ifdef EXCL_C08C
-	for (l = 0; l < LEVEL; ++l) VF_ASSUME(wfail[l] == 0);        /* listed finding F-C08-c excluded: see known_findings.txt */
-#endif
-#ifdef ONLY_C08C
-	{ int f = 0; for (l = 0; l < LEVEL; ++l) f |= wfail[l] != 0; VF_ASSUME(f); }
-#endif
 	info0 = infos[0];
 	for (j = 0; j < ND; ++j) was_blk[j] = kind[j] == K_BLK;
 	/* pre-state satisfies INV too (it holds after every command) */
 	{ int all_blk = 1, any = 0; for (j = 0; j < ND; ++j) if (has_block(j)) { any = 1; if (kind[j] != K_BLK) all_blk = 0; }
 	  if (any && all_blk) for (l = 0; l < LEVEL; ++l) for (j = 0; j < ND; ++j) VF_ASSUME(par_vec[l][j] == newv[j]); }
 	ret = __CPROVER_file_local_sync_c_state_sync_process(&S, PH, 0, 1);
-	for (l = 0; l < LEVEL; ++l) any_wfail |= (wfail[l] != 0 && parity_written[l] == 0 && gen_valid);
+	post_digests();
+	for (l = 0; l < LEVEL; ++l) wfailed |= wfail_hit[l];
+#ifdef ONLY_C08C
+	VF_ASSUME(wfailed);               /* witness of the listed finding F-C08-c */
+#endif
+#ifdef ONLY_C08B
+	VF_ASSUME(wfailed);               /* witness of the listed finding F-C08-b */
+#endif
 	/* --- C06: the invariant, for every outcome --- */
+#ifdef EXCL_C08C
+	if (!wfailed)                     /* listed finding F-C08-c (known_findings.txt): a stripe whose parity write failed is nevertheless recorded as synced */
+#endif
 	check_inv("after");
 	for (l = 0; l < LEVEL; ++l) VF_ASSERT(parity_written[l] != 1, "C06/C07: parity written by this run is flushed before the function returns (the caller then saves the content file)");
+#ifdef NEGCTL
+	for (j = 0; j < ND; ++j) if (kind[j] == K_CHG) VF_ASSERT(block_state_get(blk(j)) == BLOCK_STATE_CHG, "NEGCTL (wrong on purpose): a pending block stays pending");
+#endif
 	/* --- C07/C12: no data file touched (asserted in the stubs), position map only shrinks by deleted blocks --- */
 	for (j = 0; j < ND; ++j) if (dealloc[j]) VF_ASSERT(kind[j] == K_EMPTY, "deallocation only of deleted blocks");
 	/* --- C08 / C19: errors never turn into protection --- */
@@ -369,15 +415,17 @@ void c06_sync_step(void)
 			int became_blk = block_state_get(blk(j)) == BLOCK_STATE_BLK && !was_blk[j];
 			int read_failed = open_err[j] || attr_changed[j] || read_err[j];
 			if (read_failed && !was_blk[j]) VF_ASSERT(!became_blk, "C08/C11: a block whose file could not be opened, changed attributes or failed to read is not recorded as synced");
-			if (became_blk) VF_ASSERT(uf_lo(tok_disk[j]) == hash_lo(j), "C19/C06: a block becomes synced only with the hash of the data actually read");
+			if (became_blk) VF_ASSERT(d_disk[j] == hash_lo(j), "C19/C06: a block becomes synced only with the hash of the data actually read");
 			if (read_failed) had_err = 1;
-			if (read_err[j] == 1 && !open_err[j] && !attr_changed[j]) had_ioerr = 1;
+			if (open_err[j] == 3 || (!open_err[j] && !attr_changed[j] && read_err[j] == 2)) fatal = 1;      /* EIO on open, non-EIO read error: the command stops */
+			if (!open_err[j] && !attr_changed[j] && read_err[j] == 1) eio_read = 1;
 		}
 	}
 	if (served) {
-		int reached_all = 1;   /* an earlier fatal error (goto bail) stops before later disks are examined */
-		(void)reached_all;
 		if (had_err) VF_ASSERT(ret == -1, "C08: any read problem makes the command end with a failing status");
+		if (eio_read && !fatal) VF_ASSERT(info_get_bad(infos[0]), "C08: a stripe with an input/output error on a data read is marked bad");
+		if (had_err) VF_ASSERT(infos[0] == info0 || infos[0] == info_set_bad(info0), "C08: a stripe with a read problem is not recorded as freshly synced (its info word is left alone or only marked bad)");
+		if (wfailed) VF_ASSERT(ret == -1, "C08: a failed parity write makes the command end with a failing status");
 	}
 	/* REP whose data does not hash to the recorded (inherited) hash: the stripe is not completed */
 	for (j = 0; j < ND; ++j) if (kind[j] == K_REP && !open_err[j] && !attr_changed[j] && !read_err[j] && tok_disk[j] != tok_new[j] && served) {
@@ -388,6 +436,5 @@ void c06_sync_step(void)
 			VF_ASSERT(ret == -1, "C19: and the command fails");
 		}
 	}
-	(void)info0; (void)had_ioerr; (void)any_wfail;
 	VF_WITNESS();
 }
